@@ -199,6 +199,47 @@ func checkSyncMapCaches(p *core.Prog, r *core.Result, rule, pkgPath, ownerName s
 					}
 				}
 			}
+			if !okLoad {
+				// the lookup may live in a helper that is handed the key: h(key) { …Load(key)… }
+				for _, c2 := range core.Calls(fn) {
+					h := core.Callee(c2)
+					if h == nil || h.Pkg != fn.Pkg || h.Blocks == nil || h == fn {
+						continue
+					}
+					for _, hc := range core.Calls(h) {
+						m2, ok := core.AsMethodCall(hc)
+						if !ok || m2.RecvPkg != "sync" || m2.Method != "Load" {
+							continue
+						}
+						o2, f2 := core.FieldOf(m2.Recv)
+						if o2 == nil || o2 != owner || f2 != field {
+							continue
+						}
+						keyArg := hc.Common().Args[1]
+						if mi, ok := keyArg.(*ssa.MakeInterface); ok {
+							keyArg = mi.X
+						}
+						prm, isPrm := keyArg.(*ssa.Parameter)
+						if !isPrm {
+							continue
+						}
+						i := paramIndex(h, prm)
+						if i < 0 || i >= len(c2.Common().Args) {
+							continue
+						}
+						k2 := paramDeps(fn, c2.Common().Args[i])
+						same := len(k2) == len(kd)
+						for d := range kd {
+							if !k2[d] {
+								same = false
+							}
+						}
+						if same {
+							okLoad = true
+						}
+					}
+				}
+			}
 			r.Check(okLoad, rule, construct+":lookup-key", p.InstrPos(c.(ssa.Instruction)), "looked up under the same key", "the cache is read under a different key than it is written")
 		}
 	}
@@ -302,7 +343,7 @@ func handsOverModuleCode(p *core.Prog, c ssa.CallInstruction) bool {
 // checkConfigFallback implements R10.10.
 func checkConfigFallback(p *core.Prog, r *core.Result, rule string) {
 	fileAccess := map[string]bool{"os.Open": true, "os.OpenFile": true, "os.ReadFile": true, "os.Stat": true, "os.Lstat": true, "os.ReadDir": true, "os.Readlink": true}
-	notExistArg := func(c ssa.CallInstruction) ssa.Value {
+	directNotExist := func(c ssa.CallInstruction) ssa.Value {
 		if core.IsCallTo(c, "os", "IsNotExist") && len(c.Common().Args) == 1 {
 			return c.Common().Args[0]
 		}
@@ -315,6 +356,69 @@ func checkConfigFallback(p *core.Prog, r *core.Result, rule string) {
 		}
 		return nil
 	}
+	// a named predicate of the module: func(err error) bool { return errors.Is(err, fs.ErrNotExist) }
+	notExistArg := func(c ssa.CallInstruction) ssa.Value {
+		if a := directNotExist(c); a != nil {
+			return a
+		}
+		h := core.Callee(c)
+		if h == nil || !core.InModule(h) || h.Blocks == nil || len(h.Params) != 1 || len(c.Common().Args) != 1 {
+			return nil
+		}
+		rets := core.ReturnsOf(h)
+		for _, ret := range rets {
+			if len(ret.Results) != 1 {
+				return nil
+			}
+			rc, ok := ret.Results[0].(*ssa.Call)
+			if !ok || directNotExist(rc) != ssa.Value(h.Params[0]) {
+				return nil
+			}
+		}
+		if len(rets) == 0 {
+			return nil
+		}
+		return c.Common().Args[0]
+	}
+	isName := func(v ssa.Value) bool {
+		s, ok := core.ConstString(v)
+		return ok && (s == "dawn.toml" || s == ".dawnconfig")
+	}
+	// package-level tables of the two names
+	nameTables := map[*ssa.Global]bool{}
+	for _, fn := range p.ModuleFuncs() {
+		if fn.Name() != "init" && !strings.HasPrefix(fn.Name(), "init#") {
+			continue
+		}
+		core.Instrs(fn, func(in ssa.Instruction) {
+			st, ok := in.(*ssa.Store)
+			if !ok || !isName(st.Val) {
+				return
+			}
+			switch a := st.Addr.(type) {
+			case *ssa.IndexAddr:
+				if g, ok := a.X.(*ssa.Global); ok {
+					nameTables[g] = true
+				}
+				// a slice literal: the array is a local of init that is then stored into the global
+				if al, ok := a.X.(*ssa.Alloc); ok {
+					for _, ref := range *al.Referrers() {
+						if sl, ok := ref.(*ssa.Slice); ok {
+							for _, r2 := range *sl.Referrers() {
+								if s2, ok := r2.(*ssa.Store); ok {
+									if g, ok := s2.Addr.(*ssa.Global); ok {
+										nameTables[g] = true
+									}
+								}
+							}
+						}
+					}
+				}
+			case *ssa.Global:
+				nameTables[a] = true
+			}
+		})
+	}
 	n := 0
 	for _, fn := range p.ModuleFuncs() {
 		// functions that choose between the two configuration file names
@@ -326,7 +430,10 @@ func checkConfigFallback(p *core.Prog, r *core.Result, rule string) {
 					if *op == nil {
 						continue
 					}
-					if s, ok := core.ConstString(*op); ok && (s == "dawn.toml" || s == ".dawnconfig") {
+					if isName(*op) {
+						names++
+					}
+					if g, ok := (*op).(*ssa.Global); ok && nameTables[g] {
 						names++
 					}
 				}
@@ -423,9 +530,18 @@ func checkClosestTaggedAncestor(p *core.Prog, r *core.Result, rule string) {
 	}
 	// the yield function of the walk over the history: a synthetic closure with one parameter of type vcs.Revision
 	var walk *ssa.Function
-	for _, f := range core.WithAnons(fn) {
-		if f != fn && strings.Contains(f.Synthetic, "range-over-func") && len(f.Params) == 1 && isRevision(f.Params[0].Type()) {
-			walk = f
+	var hosts []*ssa.Function
+	for h := range staticClosure(p, fn) {
+		if h.Pkg == fn.Pkg {
+			hosts = append(hosts, h)
+		}
+	}
+	sort.Slice(hosts, func(i, j int) bool { return hosts[i].String() < hosts[j].String() })
+	for _, h := range hosts {
+		for _, f := range core.WithAnons(h) {
+			if f != h && strings.Contains(f.Synthetic, "range-over-func") && len(f.Params) == 1 && isRevision(f.Params[0].Type()) {
+				walk = f
+			}
 		}
 	}
 	if walk == nil {
@@ -551,7 +667,7 @@ func checkSharedCloneLocked(p *core.Prog, r *core.Result, rule string) {
 		tname := h.named.Obj().Name()
 		held := func(li *core.LockInfo, in ssa.Instruction) bool {
 			for _, m := range h.mutexes {
-				if li.MustHoldClass(in, pkgVcs+"."+tname+"."+m, core.ModeW) {
+				if p.MustHoldClassX(in, pkgVcs+"."+tname+"."+m, core.ModeW) {
 					return true
 				}
 			}
